@@ -12,6 +12,8 @@ c(i)-gamma  the gamma of the local frame is the equilibrium's distance ratio (C0
 d-memo  caches on the Hamiltonian construction path are keyed by point and degree (hv.memo)
 
 d-facade (round 3)  LibrationPoint.hamiltonian_system / .hamiltonian return the requested form at the requested degree (model centre manifold)
+c(v) (round 4)  velocity consistency of the local -> synodic map: d/dt(mapped position) along Hamilton's equations = s * mapped velocity with one sign s (known findings: L1, L2 give (-,-,+));
+   b-gamma / d-evaluate: C04.c solver exits and C06.c evaluate re-filed
 """
 from __future__ import annotations
 
@@ -62,6 +64,12 @@ def run(tier):
     # the public facade binds every argument to the service parameter it is meant for (nominal swap rule, rules/common.py)
     from . import common as _common
     _common.facade_bindings(chk, "C07.d-facade", ['hiten.system.libration', 'hiten.system.center'], floor=10)
+    # gamma is accurate to the solver's x-tolerance for every mass ratio (the quintics are flat for small mu: an exit on |f| <= tol stops early): C04.c re-filed;
+    # the value of a Hamiltonian object at a point sums every block up to the degree at that very point: C06.c re-filed
+    from . import c04 as _c04, c06 as _c06
+    from .common import Relabel as _Relabel
+    _c04._solver_exits(_Relabel(chk, {"C04.c": "C07.b-gamma"}))
+    _c06._c_facade_evaluate(_Relabel(chk, {"C06.c": "C07.d-evaluate"}))
     return chk
 
 
@@ -239,6 +247,19 @@ def _c_accelerations(chk):
                     bad.append(k)
             label = pt if kind == "collinear" else f"sign={pt}"
             fn = "_local2synodic_collinear" if kind == "collinear" else "_local2synodic_triangular"
+            # (v) "mapped through the canonical transformation": the velocity the map reports is the time derivative of the position it reports, along the
+            # Hamiltonian flow - with one sign for all three components (+: conjugacy, -: reversing conjugacy).  With mixed signs the second derivative of the
+            # mapped position can still equal the CR3BP acceleration at the mapped STATE (the check above) while the mapped curve is no CR3BP trajectory:
+            # the pushed-forward field (V', in particular) then misses the CR3BP field at first order.
+            pat = []
+            for k in range(3):
+                zp, _ = is_zero(V[k] - S(syn[3 + k]), R)
+                zm, _ = is_zero(V[k] + S(syn[3 + k]), R)
+                pat.append("+" if zp else ("-" if zm else "x"))
+            chk.check(pat in (["+"] * 3, ["-"] * 3), "C07.c(v)", f"{TR}::{fn}[{label},velocity]",
+                      f"{label}: along Hamilton's equations d/dt of the mapped position equals (sign per component x, y, z) {pat} times the mapped velocity: the state the map "
+                      f"returns is not the state of the mapped trajectory (for spatial motion no symmetry of the CR3BP repairs it); the pushed-forward Hamilton field "
+                      f"misses the CR3BP field at first order", sample=f"{label}: d/dt L_pos(c(t)) = s * L_vel(c(t)), one sign s")
             chk.check(not bad, "C07.c(iv)", f"{TR}::{fn}[{label},accelerations]",
                       f"{label}: the second time derivative of the mapped position along Hamilton's equations of the pulled-back exact energy is not the CR3BP acceleration "
                       f"at the mapped state (components {bad}); the map is neither a conjugacy nor a reversing conjugacy of the rotating-frame dynamics"
